@@ -24,11 +24,24 @@ META = {
                   "prefix history on the same object) on generated cases inside coqc.",
     "level_note": "Trusted: Coq kernel+VM; Spec/ChaCha.v transcription (anchored by 10 published vectors); hand-written "
                   "model Model/ChaChaGuts.v + Model/ChaChaStream.v tied on generated cases; harness. No axioms.",
-    "rule": "cases = (cipher type, key, nonce, [prefix history on the same object: boundary-directed or random seeks/applies/position queries, every third case], byte position, data) from seeded xoshiro: 7 types round-robin; first 14 cases "
-            "fixed patterns at position 0 and 64; then positions near 0, 2^32 blocks (low counter word carry), 2^38 (IETF "
-            "end), 2^64, random; lengths 0..320 (thorough: ..1100) covering buffered prefix, 256-byte wide path and tail; "
-            "distinct = distinct (type,key,nonce,pos,data); non-trivial = non-empty data; the implementation's result "
-            "(ok/err/panic) and output bytes are compared with the model and with the spec inside coqc",
+    "rule": 'cases = (cipher type, key, nonce, [prefix history on the same object: boundary-directed (14 kinds, incl. '
+            'multi-KiB applies) or random seeks/applies/position queries, every third case; a panic inside the prefix is '
+            'a failure], measured seek of ANY SeekNum type that holds the position (u8..u128, usize, i32; first 14 cases '
+            'u64), byte position, data) from seeded xoshiro: 7 types round-robin; first 14 cases fixed patterns at '
+            'position 0 and 64; then positions near 0, 2^32 blocks (low counter word carry), k*2^32 blocks for k = 2, 3, '
+            'random odd k and 2^26-1 (second and later carries, high word odd), 2^38 (IETF end), 2^64, random; lengths '
+            '0..320 (thorough: ..1100) covering buffered prefix, 256-byte wide path and tail; PLUS designated large cases '
+            '(--large: 12 per host run / 4 per other run in quick, each in its own Coq shard; 2 KiB..16 KiB host, ..8 KiB '
+            'elsewhere in quick; 8..64 iterations of the wide loop in ONE call compared with the SPEC) in six shapes '
+            'rotated by the seed: mid-block start + 8-16 wide iterations + every tail residue; the low counter word '
+            'carrying inside the wide run (IETF: ending exactly at 2^38); longest block-aligned call; across k*2^32 '
+            'blocks, k >= 2; boundary-directed position; IETF one byte past 2^38 (atomic Err) / 64-bit across 2^64 bytes; '
+            'data of calls >= 2 KiB is the computable sequence Pat(len, seed) (Run/ChaCha.v), everything else random; '
+            'constructor under catch_unwind; distinct = distinct (type,key,nonce,pos,data); non-trivial = non-empty data; '
+            "the implementation's result (ok/err/panic) and output bytes are compared with the model and with the spec "
+            'inside coqc; direct: ok iff pos+len <= limit, Err leaves the data unchanged, current_pos::<u128>() '
+            'afterwards = pos+len (ok) or pos (err); quick adds one debug x forced-SSE2 run; every run reads the forced '
+            'back-end level back',
     "assumptions": ["little-endian host", "positions are ones try_seek accepts (errors of seek are C11)"],
 }
 
@@ -40,12 +53,20 @@ def run(ctx):
         raise vlib.CheckError("Run/ChaCha.vo does not build: %s" % log[-2000:])
     n = 7 * 60 if ctx.quick else 7 * 600
     big = [] if ctx.quick else ["--big", 1]
+    # designated 2-16 KiB cases per run (each in its own Coq shard; measured ~10 ms per 64-byte block for
+    # model + spec, i.e. ~2.5 s for a 16 KiB case): host runs go up to 16 KiB, the other quick runs to 8 KiB
+    def large(host):
+        if ctx.quick:
+            return ["--large", 12, "--large-max", 16384] if host else ["--large", 4, "--large-max", 8192]
+        return ["--large", 32 if host else 12, "--large-max", 16384, "--large-permille", 4]
     # (profile, back-end level, label, cases): level 0 = the CPU's own detection (AVX2 here);
     # the other back ends are forced through the ppv-lite86 level override (hook H1)
     if ctx.quick:
         configs = [("debug", 0, "host", n), ("release", 0, "host", n),
                    ("release", 1, "sse2", 7 * 20), ("release", 2, "ssse3", 7 * 20),
-                   ("release", 3, "sse41", 7 * 20), ("release", 4, "avx", 7 * 20)]
+                   ("release", 3, "sse41", 7 * 20), ("release", 4, "avx", 7 * 20),
+                   # debug x forced back end: seek64/seek32 run under dispatch_light128 (the SSE2 machine below AVX)
+                   ("debug", 1, "sse2", 7 * 10)]
     else:
         configs = [("debug", 0, "host", n), ("release", 0, "host", n)] + \
                   [(p, l, nm, 7 * 100) for p in ("debug", "release")
@@ -57,10 +78,13 @@ def run(ctx):
             if binary is None:
                 raise vlib.CheckError("harness build failed (%s): %s" % (profile, log[-2000:]))
             bins[profile] = binary
-        s = vlib.correspondence(ctx, bins[profile], "c01", ["--count", cnt, "--level", level] + big,
+        s = vlib.correspondence(ctx, bins[profile], "c01", ["--count", cnt, "--level", level] + big + large(level == 0),
                                 "%s-backend/%s" % (name, profile))
-        ctx.log("%s/%s: %d cases, %d disagree, %d direct failures" %
-                (name, profile, s.get("evaluations", 0), len(s["failing"]), len(s.get("direct_failures", []))))
+        ctx.log("%s/%s: %d cases, %d disagree, %d direct failures, longest call %s wide iterations" %
+                (name, profile, s.get("evaluations", 0), len(s["failing"]), len(s.get("direct_failures", [])),
+                 s.get("max_wide_loop_iterations_in_one_call")))
+        if s.get("backend_level_read_back") != level:
+            raise vlib.CheckError("back-end level %d requested, the harness reports %r" % (level, s.get("backend_level_read_back")))
         vlib.decide_absolute(ctx, s, explain="explain_c01",
                              theorem="C01_refill_eq_block, C01_block_djb, C01_block_ietf, C01_block_x")
     # the portable back end (ppv-lite86 `no_simd`, generic.rs + soft.rs wrappers), both profiles
@@ -68,7 +92,7 @@ def run(ctx):
         binary, log = vlib.cargo_build(features=("no_simd",), profile=profile, bin_name="h_chacha")
         if binary is None:
             raise vlib.CheckError("harness build failed (no_simd %s): %s" % (profile, log[-2000:]))
-        s = vlib.correspondence(ctx, binary, "c01", ["--count", 7 * 20 if ctx.quick else 7 * 100, "--level", 0] + big,
+        s = vlib.correspondence(ctx, binary, "c01", ["--count", 7 * 20 if ctx.quick else 7 * 100, "--level", 0] + big + large(False),
                                 "portable-backend/%s" % profile)
         ctx.log("portable/%s: %d cases, %d disagree, %d direct failures" %
                 (profile, s.get("evaluations", 0), len(s["failing"]), len(s.get("direct_failures", []))))
